@@ -145,6 +145,7 @@ theorem mstep_call (c : Cfg) (tbl : Table) (P : List (Option Tok)) (S : List Hel
     (a lp : Tok) (r : List Tok) (m : Macro) (ps : List String) (args : List (List Tok)) (rest : List Tok)
     (hk : (a.kind != TKind.ident) = false) (hd : (a.text == "defined") = false)
     (hq : (!a.expandable || D.contains (some a.text)) = false) (hm : tbl.get a.text = some m) (ha : m.args = some ps)
+    (hv : m.variadic = false)
     (hlp : dtext lp = "(") (hsp : splitArgs r [] [] 1 = some (args, rest)) :
     ∃ P2, filterSome P2 = filterSome P ∧
       step c tbl ⟨⟨P ++ some a :: some lp :: r.map some, P.length, pr⟩ :: S, D, F, none⟩
@@ -160,7 +161,7 @@ theorem mstep_call (c : Cfg) (tbl : Table) (P : List (Option Tok)) (S : List Hel
   · rw [hp2, filterSome_snoc_none, filterSome_snoc_none]
   · simp only [step, hnl, if_false, getElem?_mid, hk, Bool.false_eq_true, hd, hq, hm, ha, stepCall, set_mid']
     rw [shift P (some lp :: r.map some) none pr]
-    simp only [peekDown_mid, Option.map_some, hlp, bne_self_eq_false, Bool.false_eq_true, if_false, consume_mid]
+    simp only [peekDown_mid, Option.map_some, hlp, bne_self_eq_false, Bool.false_eq_true, if_false, consume_mid, hv]
     rw [shift (P ++ [none]) (r.map some) none pr] at hcol ⊢
     rw [hcol]
 
